@@ -11,4 +11,7 @@ mkdir -p "$VERIF_ROOT/bin"
   if ! cmp -s k/wiring_gen.go.tmp k/wiring_gen.go; then mv k/wiring_gen.go.tmp k/wiring_gen.go; else rm -f k/wiring_gen.go.tmp; fi
   go build -tags verif -o "$VERIF_ROOT/bin/vcheck.new" ./cmd/vcheck || exit 2
   mv "$VERIF_ROOT/bin/vcheck.new" "$VERIF_ROOT/bin/vcheck"
+  # engines P and L need testing/synctest: built as a test binary with the newer toolchain
+  GOTOOLCHAIN=local go1.26.8 test -tags verif -c -o "$VERIF_ROOT/bin/ptest.new" ./p || exit 2
+  mv "$VERIF_ROOT/bin/ptest.new" "$VERIF_ROOT/bin/ptest"
 ) 9>"$VERIF_ROOT/bin/.build.lock"
